@@ -81,7 +81,8 @@ Definition w_overflow := assign1 (Ex (XInt 900000000000000000) [OBin Mul (XInt 1
 Definition w_eq := assign1 (Ex (XInt 1) [OBin C16_Syntax.Eq XTrue] None).
 (* a = str([1, 2])          asp "[1 2]", CPython "[1, 2]" *)
 Definition w_str := assign1 (Ex (XCall (s "str") [(None, Ex (ints [1; 2]) [] None)]) [] None).
-(* a = [x for x in [1, 2, 3] if x < 3]; b = a + [3]; c = a + [4]      asp b == [1, 2, 4] *)
+(* a = [x for x in [1, 2, 3] if x < 3]; b = a + [3]; c = a + [4]      asp b == [1, 2, 4] BEFORE /repo 7aeabfa (+ wrote into
+   the spare capacity of a's array); since then b == [1, 2, 3]: kept as a regression example, see append_fixed below *)
 Definition w_append : prog :=
   [SAssign (s "a") (Ex (XComp (Ex (XIdent (s "x")) [] None) [s "x"] (Ex (ints [1; 2; 3]) [] None)
                               (Some (Ex (XIdent (s "x")) [OBin C16_Syntax.Lt (XInt 3)] None))) [] None);
@@ -105,7 +106,7 @@ Definition w_const_build : prog :=
   [SAssign (s "a") (Ex (XCall (s "f") []) [] None); SIdxAssign (s "a") (lit 0) (lit 9); SAssign (s "b") (Ex (XCall (s "f") []) [] None)].
 
 Definition witnesses : list prog :=
-  [w_rest; w_lazy; w_not; w_neg; w_cmp; w_mod; w_div; w_floordiv0; w_overflow; w_eq; w_str; w_append; w_slice; w_aug; w_default].
+  [w_rest; w_lazy; w_not; w_neg; w_cmp; w_mod; w_div; w_floordiv0; w_overflow; w_eq; w_str; w_slice; w_aug; w_default].
 
 Lemma witnesses_differ : forallb (fun p => differs FUEL [] p p) witnesses = true.
 Proof. vm_compute. reflexivity. Qed.
@@ -119,12 +120,14 @@ Lemma witness_values :
   /\ py_run w_str = OGlobals [(s "a", OStr (s "[1, 2]"))] [(s "a", OStr (s "[1, 2]"))].
 Proof. vm_compute. repeat split. Qed.
 
-Lemma witness_append_value :
+(* regression: the former witness of class list-add-writes-spare-capacity now agrees with CPython *)
+Lemma append_fixed :
+  differs FUEL [] w_append w_append = false /\
   match asp_run [] [w_append] with
-  | [OGlobals _ final] => assoc_get (s "b") final = Some (OList false 0 [OInt 1; OInt 2; OInt 4])
+  | [OGlobals _ final] => assoc_get (s "b") final = Some (OList false 0 [OInt 1; OInt 2; OInt 3])
   | _ => False
   end.
-Proof. vm_compute. reflexivity. Qed.
+Proof. vm_compute. split; reflexivity. Qed.
 
 Lemma rest_refutes : ~ agrees_with_python FUEL w_rest.
 Proof. apply differs_refutes. vm_compute. reflexivity. Qed.
@@ -150,12 +153,38 @@ Theorem chain_unflagged_agrees : forall (evalx : vexpr -> state -> res (value * 
   py_ops evalx (apply_bin Asp fuel) (fun u v st0 => apply_un Asp u st0 v) (fun v st0 => truthy Asp st0 v) obj (items_of ops) st.
 Proof. intros. unfold chain. now apply ops_agree_class. Qed.
 
-(* layer 3: list +.  A list whose capacity equals its length (every list except the result of a filtered
-   comprehension or of slicing) is never written by +: the result is a fresh array holding both operands,
-   and every existing array is left as it was. *)
+(* layer 3: list +.  pyList.Operator(Add) never writes an existing array: the result is a fresh array holding both
+   operands, with capacity = length, and every existing array is left as it was - for EVERY list (since /repo 7aeabfa;
+   before, only for a list without spare capacity and a non-empty right operand). *)
 Lemma nth_app_old : forall {A} (l : list A) x n dflt, (n < length l)%nat -> nth n (l ++ [x]) dflt = nth n l dflt.
 Proof. intros. now rewrite app_nth1. Qed.
 
+Lemma list_concat_pinned : asp_list_concat_pinned = true.
+Proof. reflexivity. Qed.
+
+Theorem list_add_always_fresh : forall (l : slice) (items2 : list value) (st : state),
+  (s_off l + s_len l <= length (arr_of st (s_arr l)))%nat ->
+  let '(r, st') := list_add Asp l items2 st in
+  s_arr r = length (arrays st)
+  /\ (forall a, (a < length (arrays st))%nat -> arr_of st' a = arr_of st a)
+  /\ list_items Asp st' r = list_items Asp st l ++ items2
+  /\ s_cap r = s_len r.
+Proof.
+  intros l items2 st Hwf. unfold list_add.
+  assert (Hlen : length (list_items Asp st l) = s_len l).
+  { unfold list_items. rewrite firstn_length, skipn_length. lia. }
+  unfold alloc_list. cbn [s_arr s_len s_cap s_off arrays set_arrays arr_of].
+  repeat split.
+  + intros a Ha. unfold arr_of. cbn [arrays set_arrays]. now apply nth_app_old.
+  + unfold list_items, arr_of. cbn [arrays set_arrays s_arr s_off s_len].
+    rewrite app_nth2 by lia. rewrite Nat.sub_diag. cbn [nth skipn].
+    fold (arr_of st (s_arr l)). fold (list_items Asp st l).
+    rewrite app_length, Hlen. rewrite Nat.sub_diag. cbn [repeat]. rewrite app_nil_r.
+    rewrite firstn_all2; [reflexivity|]. rewrite app_length. lia.
+  + rewrite app_length, Hlen. lia.
+Qed.
+
+(* the statement of the previous round (its two extra hypotheses are no longer needed) *)
 Theorem list_add_full_is_pure : forall (l : slice) (items2 : list value) (st : state),
   s_cap l = s_len l -> items2 <> [] ->
   (s_off l + s_len l <= length (arr_of st (s_arr l)))%nat ->
@@ -164,19 +193,4 @@ Theorem list_add_full_is_pure : forall (l : slice) (items2 : list value) (st : s
   /\ (forall a, (a < length (arrays st))%nat -> arr_of st' a = arr_of st a)
   /\ list_items Asp st' r = list_items Asp st l ++ items2
   /\ s_cap r = s_len r.
-Proof.
-  intros l items2 st Hcap Hne Hwf. unfold list_add.
-  destruct (Nat.leb (s_len l + length items2) (s_cap l)) eqn:Hfit.
-  - apply Nat.leb_le in Hfit. destruct items2; [contradiction|]. cbn [length] in Hfit. lia.
-  - assert (Hlen : length (list_items Asp st l) = s_len l).
-    { unfold list_items. rewrite firstn_length, skipn_length. lia. }
-    unfold alloc_list. cbn [s_arr s_len s_cap s_off arrays set_arrays arr_of].
-    repeat split.
-    + intros a Ha. unfold arr_of. cbn [arrays set_arrays]. now apply nth_app_old.
-    + unfold list_items, arr_of. cbn [arrays set_arrays s_arr s_off s_len].
-      rewrite app_nth2 by lia. rewrite Nat.sub_diag. cbn [nth skipn].
-      fold (arr_of st (s_arr l)). fold (list_items Asp st l).
-      rewrite app_length, Hlen. rewrite Nat.sub_diag. cbn [repeat]. rewrite app_nil_r.
-      rewrite firstn_all2; [reflexivity|]. rewrite app_length. lia.
-    + rewrite app_length, Hlen. lia.
-Qed.
+Proof. intros l items2 st _ _ Hwf. now apply list_add_always_fresh. Qed.
